@@ -16,6 +16,8 @@ pub mod c15;
 pub mod c16;
 pub mod c17;
 pub mod c18;
+pub mod c19;
+pub mod c20;
 pub mod custom_common;
 pub mod mpc_common;
 
@@ -40,6 +42,8 @@ pub fn dispatch(ctx: &mut Ctx) -> bool {
         "C16" => c16::run(ctx),
         "C17" => c17::run(ctx),
         "C18" => c18::run(ctx),
+        "C19" => c19::run(ctx),
+        "C20" => c20::run(ctx),
         _ => return false,
     }
     true
